@@ -26,7 +26,8 @@ Clauses (class = [C10, clause]):
                 20 * epsimin (the accuracy handed to subsolv) and all multipliers / slacks are non-negative
   write-back    at the next callback the variable signals hold exactly the segments of the returned vector, sizes kept
   liveness      within the iteration budget the objective gap closes to <= 1 % of the initial gap (floor: 5 % of 1+|f*|)
-                and every constraint ends <= 1e-6 * scale (constraints are normalised to O(1))
+                and every constraint ends <= 1e-6 * scale (constraints are normalised to O(1)); a run cut off by maxit while
+                it is still moving is allowed what its last step is worth to first order (2 |grad g| . |x_end - x_prev|)
   exception     minimize_mma raises on a well-posed convex problem
 
 Cost control: a subproblem becomes slow once variables sit on their bounds.  A *deterministic* work budget (number of
@@ -65,7 +66,7 @@ PROBES = ["variable_at_bound", "asymptote_decrease", "asymptote_increase", "acti
           "per_signal_bounds", "per_variable_move", "per_signal_move", "float_signal", "arr1_signal", "vector_signal",
           "multi_signal", "response_without_signal", "start_on_bound", "infeasible_start", "converged_tolx", "maxit_reached",
           "newton_cap_message", "version_1987", "version_2007", "constraint_active_at_optimum", "bound_active_at_optimum",
-          "liveness_judged", "concat_network", "spy_installed", "work_counter_seen", "integer_typed_start", "signals_share_initial_array", "variables_of_different_magnitude", "large_variables_start_converged"]
+          "liveness_judged", "concat_network", "spy_installed", "work_counter_seen", "integer_typed_start", "signals_share_initial_array", "variables_of_different_magnitude", "large_variables_start_converged", "variable_is_signal_slice", "variable_keeps_sensitivity_allocation", "maxit_reached_while_cycling"]
 # observation-only counter (not a workload target): stopped_before_maxit_without_meeting_tolx
 FAULT_KINDS = []
 COMPONENTS = {"real": ["pymoto.minimize_mma", "pymoto.common.mma.MMA / mmasub / subsolv", "pymoto.Network / Module backpropagation",
@@ -79,7 +80,10 @@ ASSUMPTIONS = ["start points lie inside [xmin, xmax]; xmax - xmin > 0 for every 
                "albefa in [0.05, 0.4]: with albefa = 0 the interval would touch the asymptote by definition",
                "liveness is judged only for asyincr <= 1.2 and asydecr <= 0.7 (defaults and more conservative), after "
                "20 + log(0.01)/log(asydecr) iterations with enough travel, or when the loop stopped by its step criterion; "
-               "the invariants are judged for every parameter choice"]
+               "the invariants are judged for every parameter choice",
+               "a run that ends at maxit may still be in the limit cycle of the asymptote floor (amplitude <= 0.9 % of the range in "
+               "variables whose derivatives vanish at the optimum; inherent to approximations whose curvature is proportional to "
+               "|df/dx|): its constraint values are bounded by the first-order worth of the last step, not by 1e-6"]
 NOT_EXERCISED = ["fault kinds: none apply (no I/O, no solver fallback, no randomness inside minimize_mma)",
                  "non-convex problems, a != 0 (min-max formulation), user supplied c vector"]
 
@@ -221,7 +225,8 @@ def gen(rng, idx, tier):
         epsimin=float(rng.choice([0.0, 0.0, 1e-7, 1e-9])),          # 0.0 = library default (1e-10)
         tolx=float(rng.choice([1e-4, 1e-4, 1e-6, 0.0])), maxit=maxit,
         net=str(rng.choice(["direct", "direct", "concat"])), tier=tier, share=bool(rng.random() < 0.35),
-        vscale=bool(rng.random() < 0.5), bigopt=bool(rng.random() < 0.6), weakbig=bool(rng.random() < 0.6), ops=[])
+        vscale=bool(rng.random() < 0.5), bigopt=bool(rng.random() < 0.6), weakbig=bool(rng.random() < 0.6),
+        keep_alloc=bool(rng.random() < 0.3), slicevar=bool(rng.random() < 0.25), ops=[])
 
 
 def simplify(case):
@@ -532,6 +537,17 @@ def run(case):
             probe("vector_signal")
         if as_int and i == 0:
             probe("integer_typed_start")
+        if case.get("slicevar") and s["kind"] == "vec" and not as_int:
+            # the design variable is a SignalSlice of a larger signal (used both as MMA variable and as module input)
+            base = Signal(f"X{i}", state=np.concatenate([np.full(2, -7.0), st, np.full(1, 9.0)]))
+            sig.append(base[2:2 + len(st)])
+            probe("variable_is_signal_slice")
+            continue
+        if case.get("keep_alloc") and s["kind"] != "float" and not as_int:
+            # a signal constructed with an initial sensitivity keeps (and zeroes in place) its allocation on reset()
+            sig.append(Signal(f"x{i}", state=st, sensitivity=np.zeros_like(st, dtype=float)))
+            probe("variable_keeps_sensitivity_allocation")
+            continue
         sig.append(Signal(f"x{i}", state=st))
     if len(sig) > 1:
         probe("multi_signal")
@@ -915,6 +931,15 @@ def _liveness(case, pb, res, snaps, subs, probe, skip, margin, viol, out_txt):
     margin("objective_gap_over_bound", gape / (0.01 * gap0))
     # a run that ends by the step-size criterion is only accurate to that criterion (constraints are normalised to O(1))
     cbound = 1e-6 + (10.0 * case["tolx"] if converged else 0.0)
+    if not converged and len(snaps) >= 2:
+        # a run cut off by maxit is still moving: MMA without regularisation of flat directions (1987 approximations: curvature
+        # proportional to |df/dx_i|) ends in a limit cycle of amplitude 0.9 % of the range -- the floor of the asymptote offsets -- in
+        # variables whose derivatives vanish at the optimum; the constraints can be off by what that last step is worth
+        # (first order), not by more
+        step = np.abs(x_end - np.concatenate(snaps[-2]))
+        cbound += 2.0 * max(float(np.abs(r.grad(x_end)) @ step) for r in resps[1:])
+        if float(np.max(step / (hi - lo))) > 1e-3:
+            probe("maxit_reached_while_cycling")
     margin("constraint_value_over_bound", max(ge, 0.0) / cbound)
     if gape > 0.01 * gap0:
         viol("liveness", f"after {nit} iterations ({'converged by tolx' if converged else 'maxit'}) f = {_r(fe)} while the "
